@@ -20,6 +20,22 @@ CLAIMS = {
    technique="symbolic execution of kmer_heuristic.py (forking on equal k-mers), _kmer_finder.pyx (shift-and masks as 64-bit vectors, state-merged) and the aligner into SMT; z3 decides 'prefilter absent => no alignment' and every array bound for all adapters/reads within the bounds",
    text="Bounded model checking of the prefilter against the aligner it guards: match_to of every adapter class (incl. the force-anywhere variants) is executed with kmers_present wrapped so that its symbolic verdict is recorded while the alignment always runs; on every path that returns a match the solver shows the recorded verdict is 'present'. All array reads of kmers_present/shift_and_multiple_is_present carry in-bounds obligations. Adapter (ACGT, or ACGTNRX with adapter wildcards) and read characters are symbolic; class, lengths, rate representative, switches and minimum overlap are enumerated.",
    note=ALIGN_NOTE + " Read alphabet restricted to ACGTNacgtnRYX! (the kernel sees characters only through the match tables). State mutated by a kernel call that raises is not observed afterwards."),
+ "C03": dict(engine="crosshair", design="3 C03",
+   technique="CrossHair (symbolic execution with z3; only 'Confirmed over all paths' counts) on the real modifier classes and match interval methods with contract stubs for records, adapters and kernels; symbolic lengths, cut positions, match coordinates, scores, flags",
+   text="Bounded symbolic checking that every read-modifying class returns a contiguous slice of the record it received with the qualities in step: UnconditionalCutter, Shortener, NEndTrimmer, Quality/Nextseq/PolyA trimmers (kernel results arbitrary within their proved contracts), ZeroCapper, AdapterCutter for every action x match kind (single, linked, two rounds), ReverseComplementer / PairedReverseComplementer (slice of the reverse complement / of the mate's record when swapped) and PairedAdapterCutter for all six actions, each against intervals written from the statement.",
+   note="Trusted: CrossHair's models; Rec stands in for dnaio.SequenceRecord (compared with the real class on 1500 concrete vectors each run); kernels return arbitrary values inside the contracts proved by C13/C14; adapters return arbitrary matches inside the C01 contract. Read texts are short fixed strings; coordinates/lengths are symbolic over all values. Linked adapter + crop is documented as unsupported and outside the claim."),
+ "C06": dict(engine="crosshair", design="3 C06",
+   technique="CrossHair on the real ParallelPipelineRunner.run loop, OrderedChunkWriter, WorkerProcess._send_outfiles, proxy writers and every statistics __iadd__, with the OS scheduler replaced by a nondeterministic stub whose choices (chunk->worker assignment, wait() results) are the symbolic inputs",
+   text="Bounded, message-level model checking of the multi-core merge: for every assignment of <= 4 chunks to <= 3 workers and every sequence of connection.wait results the real main loop writes every output file's chunk payloads exactly once in index order with nothing left buffered, and the merged Statistics (counters, length histograms, per-adapter tables) equal those of the serial runner. No process is started.",
+   note="Assumed channel contract: FIFO connections; wait returns an arbitrary non-empty subset of connections with pending messages; each chunk goes to exactly one worker, which emits its chunks in increasing order followed by (-1, statistics). Outside the claim: pipe buffering, process start-up/termination, the reader's queue protocol, the output-format decision of proxied writers (C19)."),
+ "C10": dict(engine="crosshair", design="3 C10",
+   technique="complete native enumeration of option subsets through the real argument parser and make_pipeline_from_args with recording transformers, Boolean/equality structure over the pre-built tables decided by CrossHair",
+   text="Every subset of the read-modifying options (3072 single-end, 49152 paired-end trimming subsets x 48 name-option combinations, each parsed from three argv permutations) is built by the real pipeline builder; each modifier is wrapped by a recording transformer and the recorded chain must be x -> f1(x) -> f2(f1(x)) ... in the documented rank order with the documented R1/R2 routing (-q unless -Q, -l unless -L). The solver's part is small here and said so: CrossHair decides the index/mate/value structure over the tables.",
+   note="Trusted: argparse; the recording wrappers. The claim is complete enumeration of option subsets inside the listed options, not a symbolic treatment of option values."),
+ "C08": dict(engine="symx", design="3 C08",
+   technique="symbolic execution of AdapterIndex look-up (merge mode; dictionary look-up with a symbolic key = ite over the keys + KeyError branch; N fallback through the real adapter and aligner) over symbolic reads, for enumerated concrete adapter sets; z3 decides genuineness, uniqueness and agreement with one-by-one search",
+   text="Bounded model checking of the index: for each enumerated set of 2-3 anchored adapters (equal/different lengths, Hamming neighbours, prefixes of one another, the two examples of the property text scaled down), every order, both ends, indels on/off, k <= 1 (2 in thorough) and every read length up to longest+1, z3 decides for ALL reads over ACGTNacgn that a reported match lies inside the read with the exact error count within tolerance, that the only occurring adapter is reported, and that equal-length no-indel sets agree with one-by-one search whenever the nearest adapter is unique.",
+   note=ALIGN_NOTE + " Adapter sets are enumerated (not symbolic). One-by-one search is represented by its specification (established by C01/C02/C09). The index itself is built by executing _make_index from source with the compiled edit_environment/hamming_sphere on concrete arguments."),
  "C09": dict(engine="crosshair", design="3 C09",
    technique="CrossHair (symbolic execution with z3, exhaustive 'Confirmed over all paths') on the real MultipleAdapters/AdapterCutter/LinkedAdapter classes with contract-stub adapters; symbolic scores, error counts, presence flags and match coordinates",
    text="Bounded symbolic checking of the selection rules on the real classes: best-of-3 (score, then errors, then first), rounds for --times 1..3 x actions x every sequence of match kinds with all match coordinates symbolic, and linked adapters for all four required/optional combinations, each compared with a reference written from the statement. Only 'Confirmed over all paths' with a refuted reachability twin counts.",
